@@ -664,7 +664,7 @@ func mapLiteralKeys(c *Ctx, pkgRel, name string) map[string]string {
 }
 
 func c02Universe(c *Ctx, r *Report, flags []*FlagInfo, eff map[string]*FlagEffects) {
-	r.Rule("R02.5", "format-name universe: every constant a flag stores into InputFileFormat / OutputFileFormat is a case label of input.Create / output.Create; the default-separator tables (FS, PS, RS, repeat-IFS) have identical key sets covering every factory label")
+	r.Rule("R02.5", "format-name universe: every constant a flag stores into InputFileFormat / OutputFileFormat is a case label of input.Create / output.Create; the default-separator tables (FS, PS, RS, repeat-IFS) have identical key sets, and every format a flag can select for input is a key of all four (finalisation rejects any other)")
 	in := switchStringLabels(c, c.LookupFunc("pkg/input", "Create"))
 	out := switchStringLabels(c, c.LookupFunc("pkg/output", "Create"))
 	r.Floor("R02.5", "reader factory labels", len(in), 12)
